@@ -25,7 +25,8 @@ REQUIRED_COUNTERS = {"cases_cycle": {"quick": 300, "thorough": 5000},
                      "cases_gcm_exiting_path": {"quick": 300, "thorough": 5000},
                      "cases_gcm_inner_stack_path": {"quick": 300, "thorough": 5000},
                      "inside_extract_compared": {"quick": 3000, "thorough": 50000},
-                     "equal_code_not_dispatched": {"quick": 100, "thorough": 1000}}
+                     "equal_code_not_dispatched": {"quick": 100, "thorough": 1000},
+                     "late_registration_cases": {"quick": 80, "thorough": 80}}
 SHARD_TIMEOUT = {"quick": 400, "thorough": 5400}
 INTERPS = ["3.12", "3.11", "3.10", "3.9"]
 
@@ -370,6 +371,63 @@ def worker(spec):
                     m.gen.close() if hasattr(m.gen, "close") else m.gen.aclose().send(None)
                 except BaseException:
                     pass
+
+    # hooks registered *after* a manager type has been through fill_context once (a debugging session: look at a
+    # stack, register a hook to see through a wrapper, look again; a library that registers its hooks lazily)
+    for rep in range(40):
+        def holder(m):
+            with m:
+                yield 1
+
+        for where in ("outside", "inside"):
+            class Inner(object):
+                def __enter__(self):
+                    return self
+
+                def __exit__(self, *e):
+                    return False
+
+            class Late(Inner):
+                def __init__(self):
+                    self.inner = Inner()
+
+            m = Late()
+            h = holder(m)
+            next(h)
+
+            def filled():
+                if where == "outside":
+                    c = Context(obj=m, is_async=False)
+                    fill_context(c)
+                    return c
+                return extract(h).frames[0].contexts[0]
+
+            res.evaluations += 1
+            res.count("late_registration_cases")
+            res.nontrivial("late-registration", rep, where)
+            c0 = filled()
+            if c0.obj is not m or c0.description is not None:
+                res.violation(kind="fill_context differs from the model", case="late registration (%s): before" % where,
+                              problems=["a manager without hooks was changed: %r" % (c0,)], interp=interp)
+            if True:
+                seen = []
+
+                @elaborate_context.register(Late)
+                def _late_elab(mgr, ctx):
+                    seen.append("elaborate")
+                    ctx.description = "late"
+
+                @unwrap_context.register(Late)
+                def _late_unwrap(mgr, ctx):
+                    seen.append("unwrap")
+                    return mgr.inner
+
+                c1 = filled()
+                if c1.obj is not m.inner or seen[:2] != ["elaborate", "unwrap"]:
+                    res.violation(kind="fill_context differs from the model", case="late registration (%s): after" % where,
+                                  problems=["hooks registered after the type was first seen are not applied: obj=%s, "
+                                            "hook calls %r" % (type(c1.obj).__name__, seen)], interp=interp)
+            h.close()
     return res
 
 
